@@ -137,6 +137,25 @@ func ruleX2(p *Prog, r *Report) {
 
 // walkerShape: fn (with closures) branches on SlabIDStorable and descends through Storable.ChildStorables.
 func (p *Prog) walkerShape(fn *ssa.Function) (assertsSID, descends, startsFromSlab bool) {
+	// the walker and the private same-package helpers it calls directly (a scan loop moved out)
+	scope := []*ssa.Function{fn}
+	seenFn := map[*ssa.Function]bool{fn: true}
+	eachInstrDeep(fn, func(_ *ssa.Function, in ssa.Instruction) {
+		if c, ok := in.(ssa.CallInstruction); ok {
+			if g := staticCallee(c); g != nil && g.Pkg == p.RootSSA && !seenFn[g] && len(g.Blocks) > 0 && g.Object() != nil && !g.Object().Exported() && g.Signature.Recv() == nil {
+				seenFn[g] = true
+				scope = append(scope, g)
+			}
+		}
+	})
+	for _, sf := range scope {
+		a, d, s := p.walkerShape1(sf)
+		assertsSID, descends, startsFromSlab = assertsSID || a, descends || d, startsFromSlab || s
+	}
+	return
+}
+
+func (p *Prog) walkerShape1(fn *ssa.Function) (assertsSID, descends, startsFromSlab bool) {
 	eachInstrDeep(fn, func(_ *ssa.Function, in ssa.Instruction) {
 		if ta, ok := in.(*ssa.TypeAssert); ok && typeName(ta.AssertedType) == "SlabIDStorable" {
 			assertsSID = true
@@ -310,8 +329,9 @@ func ruleX3(p *Prog, r *Report) {
 					return al.Comment == mapName
 				}
 			}
-			if _, ok := lk.X.(*ssa.MakeMap); ok {
-				// register-allocated local map: identify by key/value types SlabID -> SlabID
+			_, isPrm := lk.X.(*ssa.Parameter)
+			if _, ok := lk.X.(*ssa.MakeMap); ok || isPrm {
+				// register-allocated local map (or the same map handed to a helper): identify by key/value types SlabID -> SlabID
 				if mt, ok := lk.X.Type().Underlying().(*types.Map); ok {
 					return typeName(mt.Key()) == "SlabID" && typeName(mt.Elem()) == "SlabID"
 				}
@@ -377,15 +397,17 @@ func ruleX3(p *Prog, r *Report) {
 			found := false
 			if pr.name == "two-parents" {
 				// the hit edge of the parentOf lookup must lead straight to an error return
-				for _, blk := range h.Blocks {
-					ifi, ok := blk.Instrs[len(blk.Instrs)-1].(*ssa.If)
-					if !ok || !pr.cond(canon(ifi.Cond)) {
-						continue
-					}
-					hit := blk.Succs[0]
-					if ret, ok := hit.Instrs[len(hit.Instrs)-1].(*ssa.Return); ok {
-						if c, _ := classifyReturn(ret); c == retError {
-							found = true
+				for _, hf := range append([]*ssa.Function{h}, healthHelpers(p, h)...) {
+					for _, blk := range hf.Blocks {
+						ifi, ok := blk.Instrs[len(blk.Instrs)-1].(*ssa.If)
+						if !ok || !pr.cond(canon(ifi.Cond)) {
+							continue
+						}
+						hit := blk.Succs[0]
+						if ret, ok := hit.Instrs[len(hit.Instrs)-1].(*ssa.Return); ok {
+							if c, _ := classifyReturn(ret); c == retError {
+								found = true
+							}
 						}
 					}
 				}
@@ -413,7 +435,8 @@ func ruleX3(p *Prog, r *Report) {
 			r.Decide(found, R, "health-predicate:"+pr.name, p.Pos(h.Pos()), "an error return is control dependent on this predicate", "CheckStorageHealth no longer fails on this condition ("+pr.name+"): unhealthy storages of that kind would be accepted")
 		}
 		var refMap ssa.Value
-		eachInstr(h, func(in ssa.Instruction) {
+		var scanFn *ssa.Function
+		recordRef := func(in ssa.Instruction) {
 			mu, ok := in.(*ssa.MapUpdate)
 			if !ok {
 				return
@@ -422,6 +445,20 @@ func ruleX3(p *Prog, r *Report) {
 			for depth := 0; depth < 4; depth++ {
 				if typeName(k.Type()) == "SlabIDStorable" {
 					refMap = canon(mu.Map)
+					// recorded by a helper into a map it was handed: name the caller's map
+					if prm, isPrm := refMap.(*ssa.Parameter); isPrm && scanFn != h {
+						refMap = nil
+						for i, q := range scanFn.Params {
+							if q != prm {
+								continue
+							}
+							eachInstr(h, func(y ssa.Instruction) {
+								if c, ok := y.(*ssa.Call); ok && c.Call.StaticCallee() == scanFn && i < len(c.Call.Args) {
+									refMap = canon(c.Call.Args[i])
+								}
+							})
+						}
+					}
 					return
 				}
 				switch x := k.(type) {
@@ -433,7 +470,13 @@ func ruleX3(p *Prog, r *Report) {
 					depth = 4
 				}
 			}
-		})
+		}
+		for _, hf := range append([]*ssa.Function{h}, healthHelpers(p, h)...) {
+			if refMap == nil {
+				scanFn = hf
+				eachInstr(hf, recordRef)
+			}
+		}
 		// every (child, parent) edge is owner-checked: in the climb from a childless slab towards its root, once the
 		// parent of the current slab was found, no path leaves the iteration (next iteration, break, return success)
 		// without passing the owner comparison - a parent that was already visited through a sibling included
